@@ -579,6 +579,19 @@ pub fn generate(seed: u64, focus: &str, profile: Profile) -> Scenario {
                         recs.push(x);
                     }
                 }
+                if hostile && r.chance(1, 12) {
+                    // a response with very many small records
+                    let n = 41 + r.usize_below(260);
+                    let base = recs.first().cloned();
+                    if let Some(b) = base {
+                        for i in 0..n {
+                            let mut x = b.clone();
+                            x.rtype = t::A;
+                            x.fields = vec![F::U32(0x0A00_0000 + i as u32)];
+                            recs.push(x);
+                        }
+                    }
+                }
                 if r.chance(1, 4) {
                     // deeper owner
                     for rec in recs.iter_mut() {
@@ -620,7 +633,8 @@ pub fn generate(seed: u64, focus: &str, profile: Profile) -> Scenario {
         script.push((duration_ms, AppOp::Drain));
         script.sort_by_key(|x| x.0);
         nodes.push(NodeSpec {
-            kind: NodeKind::RawPeer { port: if r.chance(1, 6) { Some(5353) } else { None }, joined: r.chance(2, 3) },
+            // source port 0 is legal on the wire (spoofed / raw senders): a unicast reply to it fails
+            kind: NodeKind::RawPeer { port: if hostile && r.chance(1, 4) { Some(0) } else if r.chance(1, 6) { Some(5353) } else { None }, joined: r.chance(2, 3) },
             start_ms: 0,
             script,
         });
